@@ -2,7 +2,9 @@
 
 Reference-model monitor (DESIGN §4 C08). For each generated case the real objects are built
 (kernel / mean blocks, ``GaussProcPosteriorState``, ``IncrementalUpdateGPPosteriorState``,
-``GaussianProcessRegression``) with parameters set through the public setters, and every output is
+``GaussianProcessRegression``) with parameters set through the public setters (and, in half of the
+cases, transferred to a second instance with set_params(get_params())); the reference is computed from
+the values the test installed, never from what the model reports back; and every output is
 compared with ``stv.refmodels.dense_gp`` — an independent dense implementation of the textbook
 formulas (own Matern-5/2 from coordinate differences, own outer-product Cholesky / substitutions in
 numpy extended precision, no LAPACK), validated continuously against mpmath at 50 digits on n <= 6.
@@ -62,7 +64,9 @@ ID = "C08"
 LEVEL = "exploration"
 RULE = (
     "case = seeded (kernel kind in {matern, gpr, jitter-regime, warped, product, range, expdecay}; n 1..40, "
-    "d 1..6, 1..12 test points, 1..6 target/fantasy columns; parameters log-uniform inside their box "
+    "encoded dimension d 1..6 and (a quarter of the cases) 7..14 with up to three one-hot blocks, ARD with "
+    "distinct per-coordinate inverse bandwidths, parameters installed through set_params / the setters and, in "
+    "half of the cases, transferred to a second instance by set_params(get_params()); 1..12 test points, 1..6 target/fantasy columns; parameters log-uniform inside their box "
     "constraints incl. the corners; inputs in the unit cube from uniform/grid draws with exact and near "
     "(1e-12..1e-3) duplicates, test points partly equal/near to training points; scalar or zero mean; "
     "optional (kernel, covariance_scale) tuple; incremental chain of 0..12 update/sample_and_update steps, "
@@ -72,7 +76,10 @@ RULE = (
     "posterior clause was decided."
 )
 ASSUMPTIONS = [
-    "sizes: n <= 40 training points (incl. chain), d <= 6, <= 12 test points, <= 6 target columns",
+    "sizes: n <= 40 training points (incl. chain), d <= 14, <= 12 test points, <= 6 target columns",
+    "the dense reference is computed from the parameter values the test installed (coordinate by coordinate), "
+    "not from what get_params reports; get_params is additionally required to report the installed values "
+    "(relative 1e-12: the logarithmic encoding costs an ulp) and to survive a set_params(get_params()) transfer",
     "the kernel's sqrt regulariser NUMERICAL_JITTER (sqrt(5 r^2 + 1e-9), constants.py) is part of the "
     "admissible kernel: entries are compared with the textbook formula with a band of 0.5e-9*scale "
     "(+ round-off) and with the regularised formula to round-off; diagonal() vs diag(K) likewise",
@@ -173,6 +180,8 @@ def floors(tier):
         "cell:expand_fantasies": 50, "cell:n_eq_1": 25,
         "cell:kind:gpr": 100, "cell:kind:warped": 100, "cell:kind:product": 50, "cell:kind:range": 50,
         "cell:kind:expdecay": 50,
+        "cell:d_ge_7": 150, "cell:ard_d_ge_11": 50, "cell:onehot_blocks": 80,
+        "decided:params_roundtrip": 400, "roundtrip:gpr": 40,
         "decided:kernel_textbook": 2500, "decided:kernel_pairwise": 9000, "decided:warp_transform": 100,
         "decided:jitter_structure": 3500, "decided:jitter_sequence": 100, "decided:jitter_minimal": 100,
         "decided:predict_mean": 1500, "decided:predict_variance": 1500, "decided:variance_bounds": 1700,
@@ -252,7 +261,7 @@ class Model:
 def _matern_new(rng, d, spec):
     """Create a Matern52 block and draw the parameter values to be set (log-uniform in the box)."""
     G = _imports()
-    ard = bool(spec.get("ard", rng.random() < 0.55)) and d > 1
+    ard = bool(spec.get("ard", rng.random() < (0.55 if d <= 6 else 0.8))) and d > 1
     has_cs = bool(spec.get("has_cs", rng.random() < 0.85))
     k = G["Matern52"](dimension=d, ARD=ard, has_covariance_scale=has_cs)
     k.collect_params().initialize()
@@ -281,27 +290,56 @@ def _matern_set(k, req, rng):
 
 
 def _matern_read(k, req, o):
-    """Read the values back through get_params (the reference uses these) and compare with what was set."""
+    """Read the values back through get_params and compare with what was installed. Returns the INSTALLED
+    values (one per coordinate): the dense reference is computed from what the test set, coordinate by
+    coordinate, not from what the model reports."""
     g = k.get_params()
     d = req["d"]
     if len(req["ib_req"]) == 1:
         got = [_f(g["inv_bw"])]
-        ib = np.array(got * d)
+        ib = np.array(list(req["ib_req"]) * d, dtype=np.float64)
     else:
+        missing = [i for i in range(d) if f"inv_bw{i}" not in g]
+        if missing:
+            o.violate("parameters", "get_params_key_missing:inv_bw", {"missing": missing[:5]})
+            raise Raised("get_params")
         got = [_f(g[f"inv_bw{i}"]) for i in range(d)]
-        ib = np.array(got)
-    c = _f(g["covariance_scale"]) if req["has_cs"] else 1.0
-    for want, have, name in list(zip(req["ib_req"], got, ["inv_bw"] * len(got))) + [(req["c_req"], c, "covariance_scale")]:
+        ib = np.array(req["ib_req"], dtype=np.float64)
+    c_got = _f(g["covariance_scale"]) if req["has_cs"] else 1.0
+    names = ["inv_bw"] if len(got) == 1 else [f"inv_bw[{i}]" for i in range(d)]
+    for want, have, name in list(zip(req["ib_req"], got, names)) + [(req["c_req"], c_got, "covariance_scale")]:
         o.count("decided:param_readback")
         if not abs(have - want) <= 1e-12 * abs(want):
-            o.violate("parameters", f"set_params_value_not_taken:{name}", {"set": want, "get": have})
-    return ib, c
+            o.violate("parameters", "set_params_value_not_taken:" + name.split("[")[0],
+                      {"parameter": name, "set": want, "get": have, "d": d})
+    return ib, float(req["c_req"])
+
+
+def _same_params(o, g1, g2, what):
+    """get_params of a model restored with set_params(get_params()) must report the same values."""
+    o.count("decided:params_roundtrip")
+    bad = [kk for kk in g1 if kk not in g2 or not abs(_f(g2[kk]) - _f(g1[kk])) <= 1e-12 * abs(_f(g1[kk]))]
+    if bad or set(g1) != set(g2):
+        kk = bad[0] if bad else sorted(set(g1) ^ set(g2))[0]
+        o.violate("parameters", f"{what}:get_set_params_roundtrip_changes_value:" + kk.rstrip("0123456789"),
+                  {"key": kk, "original": _f(g1.get(kk, np.nan)), "restored": _f(g2.get(kk, np.nan)), "n_keys": len(g1)})
 
 
 def _matern(rng, d, spec, o):
+    """Matern52 with parameters installed through the public setters; in half of the cases the kernel
+    handed on is a second instance restored from the first one's get_params() (parameter transfer /
+    checkpoint restore). Returns (kernel, installed ib (d,), installed c, ard)."""
     k, req = _matern_new(rng, d, spec)
     _matern_set(k, req, rng)
     ib, c = _matern_read(k, req, o)
+    if bool(spec.get("roundtrip", rng.random() < 0.5)):
+        G = _imports()
+        k2 = G["Matern52"](dimension=d, ARD=req["ard"], has_covariance_scale=req["has_cs"])
+        k2.collect_params().initialize()
+        _call(o, "Matern52.set_params", k2.set_params, dict(k.get_params()))
+        _same_params(o, k.get_params(), k2.get_params(), "Matern52")
+        o.count("roundtrip:kernel")
+        k = k2
     return k, ib, c, req["ard"]
 
 
@@ -310,7 +348,9 @@ def build_model(rng, spec, o):
     kind = spec["kind"]
     M = Model()
     M.kind = kind
-    d = int(spec.get("d", rng.integers(1, 7)))
+    # encoded input dimension: 1..6, and (a quarter of the cases) 7..14 as produced by one-hot encoded
+    # categoricals / many numeric hyperparameters
+    d = int(spec.get("d", rng.integers(7, 15) if rng.random() < 0.25 else rng.integers(1, 7)))
     if kind in ("product", "expdecay", "range"):
         d = max(d, 2)
     M.d = d
@@ -338,13 +378,22 @@ def build_model(rng, spec, o):
                     o.violate("parameters", "set_params_value_not_taken:gpr:" + kk, {"set": pd[kk], "get": _f(g[kk])})
         ib, c = _matern_read(k, req, o)
         ard = req["ard"]
+        if bool(spec.get("roundtrip", rng.random() < 0.5)):
+            # a second model restored from the first one's get_params()
+            k2 = G["Matern52"](dimension=d, ARD=ard, has_covariance_scale=req["has_cs"])
+            mean2 = G["ZeroMeanFunction"]() if zero else G["ScalarMeanFunction"]()
+            gp2 = _call(o, "GaussianProcessRegression", G["GaussianProcessRegression"], kernel=k2, mean=mean2)
+            _call(o, "GaussianProcessRegression.set_params", gp2.set_params, dict(gp.get_params()))
+            _same_params(o, gp.get_params(), gp2.get_params(), "GaussianProcessRegression")
+            o.count("roundtrip:gpr")
+            gp, k, mean = gp2, k2, mean2
         M.gp, M.mean = gp, mean
-        M.noise = _f(gp.likelihood.get_noise_variance(as_ndarray=True))
+        M.noise = noise  # installed values, not read back
         M.mean_kind = "zero" if zero else "scalar"
         if zero:
             M.mean_ref = lambda X: np.zeros(X.shape[0])
         else:
-            M.mean_value = _f(g["mean_mean_value"])
+            M.mean_value = float(pd["mean_mean_value"])
             M.mean_ref = lambda X: np.ones(X.shape[0]) * M.mean_value
     if kind in ("matern", "gpr", "jitter"):
         M.jit_inbox = False
@@ -361,7 +410,7 @@ def build_model(rng, spec, o):
         M.kernel, M.kscale = k, c
         M.own = lambda X1, X2, off: dg.matern52(X1, X2, ib, c, off)
         M.rfparts = [(slice(0, d), ib)]
-        M.flags.update(ard=ard, c_ne_1=(c != 1.0))
+        M.flags.update(ard=ard, c_ne_1=(c != 1.0), ard_dim=(d if ard else 0))
         M.pars = {"ib": ib.tolist(), "c": c}
     elif kind == "range":
         dk = int(rng.integers(1, d))
@@ -372,7 +421,7 @@ def build_model(rng, spec, o):
         sl = slice(start, start + dk)
         M.own = lambda X1, X2, off: dg.matern52(X1[:, sl], X2[:, sl], ib, c, off)
         M.rfparts = [(sl, ib)]
-        M.flags.update(ard=ard, c_ne_1=(c != 1.0))
+        M.flags.update(ard=ard, c_ne_1=(c != 1.0), ard_dim=(dk if ard else 0))
         M.pars = {"ib": ib.tolist(), "c": c, "start": start, "dk": dk}
     elif kind == "product":
         d1 = int(rng.integers(1, d))
@@ -385,7 +434,7 @@ def build_model(rng, spec, o):
         M.own = lambda X1, X2, off: dg.matern52(X1[:, s1], X2[:, s1], ib1, c1, off) * dg.matern52(
             X1[:, s2], X2[:, s2], ib2, c2, off)
         M.rfparts = [(s1, ib1), (s2, ib2)]
-        M.flags.update(ard=ard1 or ard2, c_ne_1=(c1 * c2 != 1.0))
+        M.flags.update(ard=ard1 or ard2, c_ne_1=(c1 * c2 != 1.0), ard_dim=max(d1 if ard1 else 0, (d - d1) if ard2 else 0))
         M.pars = {"ib1": ib1.tolist(), "c1": c1, "ib2": ib2.tolist(), "c2": c2}
     elif kind == "warped":
         k0, ib, c, ard = _matern(rng, d, spec, o)
@@ -412,8 +461,13 @@ def build_model(rng, spec, o):
                 pd["power_b" if one else f"power_b_{i}"] = b[i]
             w.set_params(pd)
             g = w.get_params()
-            a = np.array([_f(g["power_a" if one else f"power_a_{i}"]) for i in range(size)])
-            b = np.array([_f(g["power_b" if one else f"power_b_{i}"]) for i in range(size)])
+            ga = np.array([_f(g["power_a" if one else f"power_a_{i}"]) for i in range(size)])
+            gb = np.array([_f(g["power_b" if one else f"power_b_{i}"]) for i in range(size)])
+            a, b = np.array(a), np.array(b)  # the reference uses the installed values
+            o.count("decided:param_readback", 2 * size)
+            if np.any(np.abs(ga - a) > 1e-12 * a) or np.any(np.abs(gb - b) > 1e-12 * b):
+                o.violate("parameters", "set_params_value_not_taken:warping_power",
+                          {"set_a": a.tolist(), "get_a": ga.tolist(), "set_b": b.tolist(), "get_b": gb.tolist()})
             warps.append(w)
             wpars.append((lo, hi, a, b))
         M.kernel = G["WarpedKernel"](kernel=k0, warpings=warps)
@@ -431,7 +485,7 @@ def build_model(rng, spec, o):
         M.own = lambda X1, X2, off: dg.matern52(code_warp(X1), code_warp(X2), ib, c, off)
         M.rfparts = [(slice(0, d), ib)]
         M.rf_input = code_warp
-        M.flags.update(ard=ard, c_ne_1=(c != 1.0))
+        M.flags.update(ard=ard, c_ne_1=(c != 1.0), ard_dim=(d if ard else 0))
         M.pars = {"ib": ib.tolist(), "c": c, "warp": [(lo, hi, a.tolist(), b.tolist()) for lo, hi, a, b in wpars]}
     elif kind == "expdecay":
         kx, ib, c, ard = _matern(rng, d - 1, spec, o)
@@ -459,7 +513,7 @@ def build_model(rng, spec, o):
         M.kscale = c * 4.0 + (gam + mv) ** 2
         M.own = None
         M.rfparts = [(slice(0, d - 1), ib)]
-        M.flags.update(ard=ard, c_ne_1=(c != 1.0))
+        M.flags.update(ard=ard, c_ne_1=(c != 1.0), ard_dim=((d - 1) if ard else 0))
         M.pars = {kk: _f(v) for kk, v in k.get_params().items()}
     else:
         raise ValueError(kind)
@@ -533,6 +587,19 @@ def gen_inputs(rng, spec, M):
     m = int(spec.get("m", 1 if rng.random() < 0.5 else rng.integers(2, 7)))
     grid = rng.random() < 0.25
     X = rng.integers(0, 5, size=(n, d)) / 4.0 if grid else rng.uniform(size=(n, d))
+    onehot = []
+    if d >= 7 and M.kind != "expdecay" and rng.random() < 0.6:
+        # some coordinates are one-hot blocks of categorical hyperparameters
+        pos = int(rng.integers(0, 3))
+        while pos + 2 <= d and len(onehot) < 3:
+            sz = int(rng.integers(2, 6))
+            if pos + sz > d:
+                break
+            onehot.append((pos, sz))
+            pos += sz + int(rng.integers(0, 3))
+        for (pos, sz) in onehot:
+            X[:, pos:pos + sz] = 0.0
+            X[np.arange(n), pos + rng.integers(0, sz, size=n)] = 1.0
     p_dup = float(spec.get("p_dup", rng.choice([0.0, 0.0, 0.2, 0.6])))
     if M.kind == "jitter" and "p_dup" not in spec:
         p_dup = float(rng.choice([0.5, 0.8, 0.95]))
@@ -551,6 +618,10 @@ def gen_inputs(rng, spec, M):
                 X[i] = np.clip(X[j] + 10 ** rng.uniform(near_lo, near_hi) * rng.normal(size=d), 0, 1)
                 n_near += 1
     Xt = rng.uniform(size=(nt, d))
+    for (pos, sz) in onehot:
+        Xt[:, pos:pos + sz] = 0.0
+        Xt[np.arange(nt), pos + rng.integers(0, sz, size=nt)] = 1.0
+    M.onehot = onehot
     for t in range(nt):
         r = rng.random()
         if r < 0.15:
@@ -1338,6 +1409,12 @@ def _run(spec, o, sig):
     if decided_any[0]:
         if M.flags.get("ard"):
             o.count("cell:ard")
+            if M.flags.get("ard_dim", 0) >= 11:
+                o.count("cell:ard_d_ge_11")
+        if M.d >= 7:
+            o.count("cell:d_ge_7")
+        if M.onehot:
+            o.count("cell:onehot_blocks")
         if M.flags.get("c_ne_1") or (M.tuple and cs != 1.0):
             o.count("cell:cov_scale_ne_1")
         if M.tuple and cs != 1.0:
